@@ -485,6 +485,107 @@ func scrambleRounds(res *vlib.Result, r *vlib.Rand, ctxID, rounds int) {
 	res.Distinct(fmt.Sprintf("scramble/%d", ctxID))
 }
 
+// every kind of immediately-answered request (refused relay pattern, undecodable
+// poll, unknown fingerprint, bad client poll, answer for an unknown id) followed
+// by a normal pair on the same broker: everything completes, nothing is left over.
+func refusedThenPair(res *vlib.Result, r *vlib.Rand, ctxID int) {
+	name := fmt.Sprintf("refused-requests-then-pair/%d", ctxID)
+	b := newVBroker(ctxID, []vBridge{{FP: vDefaultFP, URL: "wss://snowflake.test/"}}, "snowflake.test$", "snowflake.test$")
+	tr := newTracker()
+	rec := map[string]interface{}{"case": name, "scenario": "refused-requests-then-pair"}
+	good, bad := "snowflake.test$", "^elsewhere.test$"
+	// a proxy of the pool the odd clients will be matched from is waiting meanwhile
+	waiting := &pollSpec{Sid: fmt.Sprintf("rp%d-waiting", ctxID), Type: "standalone", NAT: r.PickString([]string{NATUnrestricted, NATRestricted, ""}), Pattern: &good}
+	tr.run("proxy-poll", waiting.Sid, func() string {
+		pr := b.poll(waiting)
+		if pr.Offer != "" {
+			b.answer(waiting.Sid, "A-"+waiting.Sid)
+		}
+		return fmt.Sprintf("%d %s", pr.HTTP, pr.Status)
+	})
+	waitUntil(5*time.Second, func() bool { return b.debugAvailable() == 1 })
+	kinds := r.Perm(6)
+	for _, k := range kinds {
+		k := k
+		switch k {
+		case 0:
+			p := &pollSpec{Sid: fmt.Sprintf("rp%d-rej", ctxID), Type: "standalone", NAT: NATUnrestricted, Pattern: &bad}
+			tr.run("proxy-poll", p.Sid, func() string { pr := b.poll(p); return fmt.Sprintf("%d %s", pr.HTTP, pr.Status) })
+		case 1:
+			p := &pollSpec{RawBody: []byte(`{"Sid":"","Version":"1.3"}`)}
+			tr.run("proxy-poll", "", func() string { pr := b.poll(p); return fmt.Sprintf("%d %s", pr.HTTP, pr.Status) })
+		case 2:
+			// a client naming a bridge that is not in the list, of every NAT type
+			for _, nat := range []string{"", NATRestricted, NATUnrestricted} {
+				c := &clientSpec{Transport: "post", NAT: nat, FP: randFP(r, 20), Offer: "RP-UNLISTED-" + nat}
+				tr.run("client-poll", "", func() string { cr := b.client(c); return fmt.Sprintf("%d %s%s", cr.HTTP, cr.Answer, cr.Error) })
+			}
+		case 3:
+			c := &clientSpec{Transport: "post", NAT: "bogus", Offer: "x"}
+			tr.run("client-poll", "", func() string { cr := b.client(c); return fmt.Sprintf("%d %s%s", cr.HTTP, cr.Answer, cr.Error) })
+		case 4:
+			tr.run("answer", "", func() string { st, s := b.answer("no-such-sid", "x"); return fmt.Sprintf("%d %s", st, s) })
+		case 5:
+			p := &pollSpec{Sid: fmt.Sprintf("rp%d-legacy", ctxID), Type: "webext", NAT: NATRestricted} // legacy poll, presumed pattern admits it
+			tr.run("proxy-poll", p.Sid, func() string { pr := b.poll(p); return fmt.Sprintf("%d %s", pr.HTTP, pr.Status) })
+		}
+		time.Sleep(time.Duration(r.Intn(30)) * time.Millisecond)
+	}
+	// then a normal pair
+	p := &pollSpec{Sid: fmt.Sprintf("rp%d-ok", ctxID), Type: "standalone", NAT: NATUnrestricted, Pattern: &good}
+	tr.run("proxy-poll", p.Sid, func() string {
+		pr := b.poll(p)
+		if pr.Offer != "" {
+			b.answer(p.Sid, "A-"+p.Sid)
+			return "offer"
+		}
+		return fmt.Sprintf("%d %s", pr.HTTP, pr.Status)
+	})
+	time.Sleep(100 * time.Millisecond)
+	c := &clientSpec{Transport: "post", NAT: NATRestricted, Offer: "RP-OFFER"}
+	var cres clientResult
+	tr.run("client-poll", "", func() string { cres = b.client(c); return cres.Answer + cres.Error })
+	if !tr.waitAll(45 * time.Second) {
+		judgeOpenGeneric(res, name, tr, rec)
+	}
+	rec["requests"] = tr.snapshot()
+	checkQuiescent(res, name, b, rec)
+	res.Eval(1)
+	res.Distinct(name)
+	res.Obs("refused_then_pair_scenarios", 1)
+}
+
+// judgeOpenGeneric: like judgeOpen, but a request that is still open long after
+// every protocol timer fired is also a violation when its goroutine is parked on
+// a mutex of the broker (a lock that is never released).
+func judgeOpenGeneric(res *vlib.Result, scenario string, tr *tracker, rec map[string]interface{}) {
+	open := tr.open()
+	if len(open) == 0 {
+		return
+	}
+	locked := 0
+	excerpt := ""
+	for _, g := range vlib.ParseDump(vlib.DumpAll()) {
+		if strings.HasPrefix(g.State, "sync.Mutex.Lock") && (g.HasFrame("(*IPC).") || g.HasFrame("(*BrokerContext).") || g.HasFrame("(*Metrics).")) {
+			locked++
+			if len(excerpt) < 2500 {
+				excerpt += g.Raw + "\n"
+			}
+		}
+	}
+	if locked > 0 {
+		kinds := map[string]int{}
+		for _, o := range open {
+			kinds[o.Kind]++
+		}
+		rec["goroutines"] = excerpt
+		rec["requests"] = tr.snapshot()
+		res.Violate("c04:stuck:request-parked-on-broker-mutex", fmt.Sprintf("%s: requests never complete (%v open); %d goroutines are parked in sync.Mutex.Lock inside broker code long after every protocol timer fired", scenario, kinds, locked), rec)
+		return
+	}
+	judgeOpen(res, scenario, tr, rec)
+}
+
 func TestVerifC04Steered(t *testing.T) {
 	res := vlib.NewResult("C04", "inpkg-broker-c04-steered", "scrambles (K simultaneous clients for fewer waiting proxies, many rounds) and deterministic steered scenarios: for each 10 s boundary (proxy-poll timeout vs client pop; client timeout vs answer) the opposing event is placed before / inside / after the window using verif hooks as callbacks, plus premature answers; each repeated in several broker instances; non-trivial = scenario executed to a verdict, distinct by (window, order)")
 	defer res.Finish()
@@ -505,6 +606,11 @@ func TestVerifC04Steered(t *testing.T) {
 			go func(id int, wc bool) { defer wg.Done(); steerPrematureAnswer(res, 3000+id, wc) }(id, wc)
 		}
 	}
+	rr := vlib.NewRand(vlib.Seed()).Split("c04refused")
+	for c := 0; c < vlib.Scale(16, 64); c++ {
+		wg.Add(1)
+		go func(c int) { defer wg.Done(); refusedThenPair(res, rr.SplitN("ctx", c), 6000+c) }(c)
+	}
 	root := vlib.NewRand(vlib.Seed()).Split("c04scramble")
 	for c := 0; c < vlib.Scale(8, 32); c++ {
 		wg.Add(1)
@@ -515,6 +621,7 @@ func TestVerifC04Steered(t *testing.T) {
 	}
 	wg.Wait()
 	res.Note("hook_hits", verifhook.AllHits())
+	res.RequireObs("refused_then_pair_scenarios", int64(vlib.Scale(16, 64)))
 	res.RequireObs("scramble_rounds", int64(vlib.Scale(8, 32)*vlib.Scale(150, 600)*9/10))
 	res.RequireObs("steered_window_hits_proxy_timeout", int64(reps))
 	res.RequireObs("steered_window_hits_client_timeout", int64(reps))
